@@ -71,6 +71,9 @@ def unitvec(v):
     v = getvector(v)
     n = norm(v)
 
+    if _symbolics and isinstance(n, sympy.Expr) and not n.is_number:
+        # symbolic length: it cannot be compared with the threshold
+        return v / n
     if n >= 10 * _eps:  # complement of the iszerovec test
         return v / n
     else:
